@@ -11,7 +11,8 @@ def harmless : List String := ["boolop-of-comparisons", "in-char"]
 
 /-- the file compares by value (no `is` except with None), tests membership only in real collections, never relies on
 `assert` to refuse input, never uses `x or y` / `x and y` to select a value (which would treat 0, False, "", {} and empty
-arrays as missing), and never spreads a dictionary's values positionally -/
+arrays as missing), never spreads a dictionary's values positionally, and never re-orders what it was given (no `sorted`,
+`set`, `reversed`, `unique`, `.sort()`: labels, environments, reactions and cells are addressed by their declared position) -/
 def valueSemantic (inv : List (String × String)) : Bool := inv.all fun e => harmless.contains e.1
 
 end Strengths.PyIdioms
